@@ -13,9 +13,12 @@ THEOREMS = [
     "C11.merge_per_inner_order_maxc",
     "C11.merge_per_inner_order_tagged",
     "C11.merge_exact_multiset",
+    "C11.merge_completes_iff",
+    "C11.merge_completes_maxc_partial",
+    "C11.merge_first_error",
     "C11.merge_maxc_bound",
     "C11.merge_queue_fifo",
-    "C11.merge_first_error",
+    "C11.concat_map_ordered",
 ]
 RULE = ("outer timeline (cold or hot, completing / erroring / never completing) of 0..4 inner sources (cold, hot, 'rude' hot, or "
         "notifying synchronously inside subscribe; empty, erroring, never-completing), times on a 5-tick grid so that simultaneous "
@@ -36,7 +39,7 @@ OPS = ["merge_all", "merge", "merge", "flat_map", "flat_map_indexed", "concat_ma
 
 
 def cases(rng, tier):
-    n = fw.tier_scale(tier, 1600, 18000)
+    n = fw.tier_scale(tier, 4000, 36000)
     for i in range(n):
         op = OPS[i % len(OPS)]
         c = cc.gen_ho_case(rng, op)
